@@ -156,6 +156,35 @@ def run(case):
             lhs = np.einsum("a...,a->...", P, rowsum)
             rhs = (V * dV).sum((-1, -2))
             c.close(f"{lab}/integral", "volume integral of the projected field = volume integral of the values", lhs, rhs, scale=max(np.abs(rhs).max(), 0.1 * float(dV.sum())))
+        # the dV= argument (another measure: 2 pi R dV of an axisymmetric model, a weighted volume): call histories on ONE region,
+        # every ordered sequence (<= 3) over three measures; each projection reproduces the nodal field and preserves the integral
+        # in ITS measure, whatever was projected on this region object before
+        if case["member"] in ("distorted", "block") and kind in ("quad", "hexahedron", "quad8", "triangle6", "tetra"):
+            xq = np.einsum("aqc,caI->Iqc", np.broadcast_to(region.h, (region.h.shape[0],) + dV.shape), mesh.points[region.mesh.cells])
+            measures = {"default": None, "2piR": 2 * np.pi * (xq[0] - xq[0].min() + 0.3) * dV, "weighted": (1.0 + 0.5 * np.sin(3.0 * xq[-1])) * dV}
+            Uh = zoo.offarr(seed, 1650, (n, 2))
+            fqh = fem.Field(region, dim=2, values=Uh.copy()).interpolate()
+            Vh = zoo.offarr(seed, 1651, (2,) + dV.shape)
+            nh = 0
+            for depth in (1, 2, 3):
+                for seq in itertools.product(measures, repeat=depth):
+                    reg2 = proj_region(kind, mesh)
+                    for step, ml in enumerate(seq):
+                        kw_ = {} if measures[ml] is None else dict(dV=measures[ml])
+                        got = fem.project(fqh, reg2, **kw_)
+                        Pg = fem.project(Vh, reg2, **kw_)
+                        c.trans += 2
+                        if step < len(seq) - 1:
+                            continue
+                        lab_ = "dV-history=" + ">".join(seq)
+                        c.close(lab_ + "/identity", "projection (with a dV= measure) of values stemming from a nodal field returns that field, after earlier projections with other measures on the same region", got, Uh, scale=1.0)
+                        dVm = dV if measures[ml] is None else measures[ml]
+                        mrow = np.einsum("aqc,qc->ca", np.broadcast_to(region.h, (region.h.shape[0],) + dV.shape), dVm)
+                        rowsum = np.zeros(n)
+                        np.add.at(rowsum, region.mesh.cells.ravel(), mrow.ravel())
+                        c.close(lab_ + "/integral", "integral (in the given measure) of the projected field = integral of the values", np.einsum("a...,a->...", Pg, rowsum), (Vh * dVm).sum((-1, -2)), scale=max(np.abs((Vh * dVm).sum((-1, -2))).max(), 0.1 * float(dVm.sum())))
+                    nh += 1
+            c.outcomes.add(f"dV-histories={nh}")
         # discontinuous projection (average=False): per-cell least squares -> exact for FE data too
         got = fem.project(vq, region, average=False)
         c.trans += 1
